@@ -739,8 +739,8 @@ func lemmaFrameAboveCapRoundTrips() bool { return specF7RoundTrips() }
 //@                    zzCalls("atomic.Store:shutdown") == 0 && zzCalls("atomic.Add:reconnectGen") == 0 && zzCalls("hsms.(transport).Start") == 0 &&
 //@                    zzCalls("hsms.newEpoch") == 0 && zzCalls("sync.(*WaitGroup).Add") == 0 && zzCalls("hsms.(transport).ArmStart") == 0
 //@ ensures [oneload]  zzCalls("atomic.Load:sup") <= 1 && zzCalls("atomic.Load:shutdown") <= 1
-//@ ensures [joined]   zzCalls("go.nodone") == 0 && zzCalls("go") == zzCalls("go.done:c.supWg")
-//@ ensures [balance]  zzCalls("go") > 0 ==> zzCalls("sync.(*WaitGroup).Add") == 1 && zzArg[int]("sync.(*WaitGroup).Add", 0) == zzCalls("go.done:c.supWg")
+//@ ensures [joined]   zzCalls("go.nodone") == 0 && zzCalls("go") == zzCalls("go.done:supWg")
+//@ ensures [balance]  zzCalls("go") > 0 ==> zzCalls("sync.(*WaitGroup).Add") == 1 && zzArg[int]("sync.(*WaitGroup).Add", 0) == zzCalls("go.done:supWg")
 //@ ensures [rollback] zzCalls("hsms.(transport).Start") == 1 && zzRet[error]("hsms.(transport).Start") != nil && zzCalls("hsms.(*connection).startConnectLoop") == 0 ==>
 //@                    zzCalls("hsms.(*supervisor).requestClose") == 1 && zzCalls("hsms.(*supervisor).stop") == 1 && zzCalls("sync.(*WaitGroup).Wait") >= 2 &&
 //@                    zzArg[bool]("atomic.Store:shutdown", 0)
